@@ -481,4 +481,30 @@ def stAfterEx : St :=
 -- ... which satisfies the hypothesis: without the reset the next stream would be empty
 example : (Ctx.fresh.after stAfterEx).latency ≤ (Ctx.fresh.after stAfterEx).paddingSent := by decide
 
+/-! ### sources with short reads before the end (`padChunks`) -/
+
+/-- the padded read starts with the read itself and ends in zeros only. -/
+theorem padChunk_split (ps : Nat) (chunk : Bytes) :
+    (padChunk ps chunk).take chunk.length = chunk ∧
+      (padChunk ps chunk).drop chunk.length = List.replicate (ps - chunk.length) 0 := by
+  unfold padChunk; simp
+
+theorem padChunk_length (ps : Nat) (chunk : Bytes) (h : chunk.length ≤ ps) :
+    (padChunk ps chunk).length = ps := by
+  unfold padChunk; simp; omega
+
+/-- For a source delivering the reads `chunks`: the packets carry, in order, every read
+    followed by the zeros that fill its packet, then the silence — every delivered frame
+    exactly once. -/
+theorem chunks_payload_exact {c : Cfg} {cap s0 : Nat} (hv : Valid c cap s0) (chunks : List Bytes)
+    (comp : List Nat) (hl : 0 < c.latency) :
+    ((packetize c cap (padChunks c.packetSize chunks) s0 comp).sent.map (·.pkt.payload)).flatten =
+      (chunks.map (padChunk c.packetSize)).flatten ++
+        List.replicate (zeros c (padChunks c.packetSize chunks).length) 0 :=
+  payload_exact hv _ comp hl
+
+example : padChunks 4 [[1, 2, 3, 4], [5], [6, 7, 8, 9], [10, 11]] = [1, 2, 3, 4, 5, 0, 0, 0, 6, 7, 8, 9, 10, 11, 0, 0] ∧
+    ((packetize cEx 3 (padChunks 4 [[1, 2, 3, 4], [5], [6, 7, 8, 9]]) 65535 []).sent.map (·.pkt.payload)).take 3 =
+      [[1, 2, 3, 4], [5, 0, 0, 0], [6, 7, 8, 9]] := by decide
+
 end PyatvModel.Props.C16
